@@ -23,6 +23,7 @@ import (
 	fixgen "github.com/b2broker/simplefix-go/tests/fix44"
 
 	"verifharness/hout"
+	"verifharness/wire"
 )
 
 var (
@@ -34,6 +35,7 @@ var (
 type hreg struct {
 	id      int
 	verdict bool
+	stamp   bool
 }
 
 func hs(l []hreg) string {
@@ -47,6 +49,9 @@ func hs(l []hreg) string {
 			sign = "+"
 		}
 		p[i] = strconv.Itoa(h.id) + sign
+		if h.stamp {
+			p[i] += "s"
+		}
 	}
 	return strings.Join(p, ",")
 }
@@ -70,12 +75,12 @@ func outgoingCase(r *rand.Rand, o *hout.Out) {
 	reg := func(tp string) {
 		myID, verdict := id, r.Intn(6) > 0
 		id++
-		if tp == simplefixgo.AllMsgTypes {
-			allH = append(allH, hreg{myID, verdict})
-		} else {
-			typedH = append(typedH, hreg{myID, verdict})
-		}
 		stamp := r.Intn(3) == 0 // a handler that completes the message (HandleOutgoing is where messages may be modified)
+		if tp == simplefixgo.AllMsgTypes {
+			allH = append(allH, hreg{myID, verdict, stamp})
+		} else {
+			typedH = append(typedH, hreg{myID, verdict, stamp})
+		}
 		h.HandleOutgoing(tp, func(m simplefixgo.SendingMessage) bool {
 			mu.Lock()
 			log = append(log, myID)
@@ -113,9 +118,11 @@ func outgoingCase(r *rand.Rand, o *hout.Out) {
 		msg := messages.NewMockMessage("X", data, terr)
 		err := h.Send(msg)
 		enq := "0"
+		sent := ""
 		select {
 		case got := <-h.Outgoing():
 			enq = "1"
+			sent = " " + wire.X(got)
 			// what was transmitted is the message as the last handler left it: every handler saw (and could complete) the
 			// message that goes out
 			if !bytes.Equal(got, msg.Data) {
@@ -127,8 +134,8 @@ func outgoingCase(r *rand.Rand, o *hout.Out) {
 		if ok {
 			okS = "1"
 		}
-		op := fmt.Sprintf("pool out %s %s %s", hs(allH), hs(typedH), okS)
-		o.Emit("corr", "C19", op, "log "+ids(log)+" | enq "+enq)
+		op := fmt.Sprintf("pool outm %s %s %s %s", hs(allH), hs(typedH), okS, wire.X(data))
+		o.Emit("corr", "C19", op, "log "+ids(log)+" | enq "+enq+sent)
 		if (enq == "1") != (err == nil) {
 			o.Fail("C19", "send-error-mismatch", fmt.Sprintf("round %d: enqueued=%s err=%v all=%s typed=%s", round, enq, err, hs(allH), hs(typedH)), op)
 		}
@@ -154,9 +161,9 @@ func incomingCase(r *rand.Rand, o *hout.Out) {
 		myID, verdict := id, r.Intn(6) > 0
 		id++
 		if tp == simplefixgo.AllMsgTypes {
-			allH = append(allH, hreg{myID, verdict})
+			allH = append(allH, hreg{myID, verdict, false})
 		} else {
-			typedH = append(typedH, hreg{myID, verdict})
+			typedH = append(typedH, hreg{myID, verdict, false})
 		}
 		h.HandleIncoming(tp, func([]byte) bool {
 			mu.Lock()
